@@ -23,9 +23,22 @@ func hid(b byte) tmbytes.HexBytes { id := make([]byte, 32); id[0] = b; return id
 // C13/C03: the begin-block sweep at height h refunds exactly the open contracts queued at h,
 // each once, removes their queue entries, leaves later contracts alone, never panics, and
 // maintains the time-based supply window.
-func VerifC13_HTLCBeginBlock() {
-	verifExpect("swept")
-	const h = int64(50)
+type c13Slot struct {
+	id       tmbytes.HexBytes
+	transfer bool
+	dir      types.SwapDirection
+	amt      sdkmath.Int
+	denom    string
+	sender   sdk.AccAddress
+	expiry   uint64
+}
+
+const c13H = int64(50)
+
+// c13HTLCState: one or two open contracts due at the current height and one due later, arbitrary asset
+// parameters, supply counters and period clock within the invariants.
+func c13HTLCState() (*vEnv, keeper.Keeper, sdk.Context, []c13Slot, int64) {
+	const h = c13H
 	e := newVEnv(types.StoreKey, h, hDenom, hOther)
 	e.bank.modules[types.ModuleName] = []string{authtypes.Minter, authtypes.Burner}
 	deputy, user, other := vAddr(5), vAddr(1), vAddr(2)
@@ -43,15 +56,7 @@ func VerifC13_HTLCBeginBlock() {
 		verifFail("validated params rejected")
 	}
 	// up to two contracts due now, one due later
-	type slot struct {
-		id       tmbytes.HexBytes
-		transfer bool
-		dir      types.SwapDirection
-		amt      sdkmath.Int
-		denom    string
-		sender   sdk.AccAddress
-		expiry   uint64
-	}
+	type slot = c13Slot
 	mk := func(n string, idb byte, expiry uint64) slot {
 		s := slot{id: hid(idb), amt: verifIntIn("amt"+n, one, w), denom: hOther, sender: user, expiry: expiry}
 		switch verifChoice("shape"+n, 3) {
@@ -108,7 +113,13 @@ func VerifC13_HTLCBeginBlock() {
 	if verifChoice("hasPrev", 2) == 1 {
 		k.SetPreviousBlockTime(e.ctx, time.Unix(prev, 0))
 	}
-	ctx := e.ctx.WithBlockTime(time.Unix(now, 0))
+	return e, k, e.ctx.WithBlockTime(time.Unix(now, 0)), slots, now
+}
+
+func VerifC13_HTLCBeginBlock() {
+	verifExpect("swept")
+	const h = c13H
+	e, k, ctx, slots, now := c13HTLCState()
 	bal0 := map[string]*big.Int{}
 	for _, s := range slots {
 		bal0[string(s.sender)+s.denom] = e.bank.get(s.sender, s.denom).BigInt()
